@@ -31,6 +31,36 @@ theorem join_heads_admitted (l : Log) (E H : List Entry) (valid : Entry → Bool
     ∀ e ∈ (joinMerge l E H).heads, Admitted l E valid e.hash :=
   (joinMerge_admitted l E H valid hE hv).2
 
+/-- **no foreign object becomes a head** (repair 17): whatever entries and head OBJECTS the other log
+    hands over — unverified, under hashes this log already holds, carrying other log ids, consistent or
+    not — and whatever the bound, every head of the merged log is one of the entry objects the merged log
+    holds (its own, or a candidate that was admitted), not merely an object with the hash of one. -/
+theorem join_heads_are_held_entries (l l' : Log) (otherId : Bytes) (E H : List Entry) (size : Int) (valid : Entry → Bool)
+    (hdh : ∀ x ∈ l.heads, x ∈ l.entries) (hj : join l otherId E H size valid = .ok l') :
+    ∀ x ∈ l'.heads, x ∈ l'.entries := by
+  unfold join at hj
+  by_cases hid : l.id ≠ otherId
+  · rw [if_pos hid] at hj
+    cases hj
+    exact hdh
+  · rw [if_neg hid] at hj
+    split at hj
+    · cases hj
+    · cases hj
+      intro x hx
+      show x ∈ (joinTrim (joinMerge l E H) size).entries
+      have hx' : x ∈ (joinTrim (joinMerge l E H) size).heads := hx
+      unfold joinTrim at hx' ⊢
+      by_cases hs : size > -1
+      · rw [if_pos hs] at hx' ⊢
+        exact (mem_findHeads.mp (mem_omFromList hx')).1
+      · rw [if_neg hs] at hx' ⊢
+        have hm := (List.mem_filter.mp (mem_omFromList hx')).1
+        rcases mem_omMerge ((mem_findHeads.mp hm).1) with h | h
+        · exact foldl_omSet_subset _ _ _ (hdh x h)
+        · obtain ⟨hd, _, hg⟩ := List.mem_filterMap.mp h
+          exact (get?_mem hg).1
+
 /-- a log of a different id is never merged -/
 theorem join_other_id (l : Log) (otherId : Bytes) (E H : List Entry) (size : Int) (valid : Entry → Bool)
     (hid : l.id ≠ otherId) : join l otherId E H size valid = .ok l :=
